@@ -528,6 +528,20 @@ func (pool *TxPool) demoteUnexecutables() {
 				pool.enqueueTx(hash, tx)
 			}
 		}
+		// A hole inside the list (a re-injected transaction was refused while later nonces
+		// of the account were still pending): postpone everything above the hole
+		if txs := list.Flatten(); len(txs) > 1 {
+			for i := 1; i < len(txs); i++ {
+				if txs[i].Nonce() != txs[i-1].Nonce()+1 {
+					for _, tx := range list.Cap(i) {
+						hash := tx.Hash()
+						logging.Trace("Demoting pending transaction above a nonce hole", "hash", hash)
+						pool.enqueueTx(hash, tx)
+					}
+					break
+				}
+			}
+		}
 		if list.Empty() {
 			delete(pool.pending, addr)
 			delete(pool.beats, addr)
